@@ -19,6 +19,7 @@ import (
 	"fmt"
 	"go/ast"
 	"go/types"
+	"sort"
 	"strings"
 
 	"golang.org/x/tools/go/ssa"
@@ -144,7 +145,6 @@ func checkC20(w *World, r *Report) {
 		return ok && fa.X == ssa.Value(cacheG)
 	}
 	nWrites := 0
-	doneFns := map[*ssa.Function]bool{}
 	for _, fn := range w.pkgFuncs() {
 		var updates []*ssa.MapUpdate
 		instrsOf(fn, func(in ssa.Instruction) {
@@ -160,277 +160,532 @@ func checkC20(w *World, r *Report) {
 		})
 		for _, mu := range updates {
 			nWrites++
-			w.checkCacheUpdate(r, fn, mu, isCacheMap, doneFns)
+			w.checkCacheUpdate(r, fn, mu, isCacheMap)
 		}
 	}
 	r.floor("writes to the attribute cache map", nWrites, 3)
+	w.checkKeyedAccess(r, keyT)
 }
 
-// keyParts: for a key value (load of a local key struct), the values stored into its fields.
-func keyParts(key ssa.Value) (typ ssa.Value, attr ssa.Value, alloc *ssa.Alloc) {
+// keyRef: the cache key as one function sees it — a local literal (typ/attr = the values stored
+// into its fields) or a parameter of the key type (possibly spilled to a local slot by go/ssa).
+type keyRef struct {
+	alloc     *ssa.Alloc
+	param     *ssa.Parameter
+	typ, attr ssa.Value
+}
+
+func resolveKey(key ssa.Value) *keyRef {
+	if p, ok := key.(*ssa.Parameter); ok {
+		return &keyRef{param: p}
+	}
 	u, ok := key.(*ssa.UnOp)
 	if !ok {
-		return nil, nil, nil
+		return nil
 	}
 	al, ok := u.X.(*ssa.Alloc)
 	if !ok || al.Referrers() == nil {
-		return nil, nil, nil
+		return nil
 	}
+	if p := spilledParam(al); p != nil {
+		return &keyRef{alloc: al, param: p}
+	}
+	k := &keyRef{alloc: al}
 	for _, ref := range *al.Referrers() {
 		fa, ok := ref.(*ssa.FieldAddr)
 		if !ok || fa.Referrers() == nil {
 			continue
 		}
-		_, fname := fieldOfAddr(fa)
 		for _, r2 := range *fa.Referrers() {
 			if st, ok := r2.(*ssa.Store); ok && st.Addr == fa {
 				if isNamed(st.Val.Type(), "reflect", "Type") {
-					typ = st.Val
+					k.typ = st.Val
 				} else if types.Identical(st.Val.Type(), types.Typ[types.String]) {
-					attr = st.Val
+					k.attr = st.Val
 				}
-				_ = fname
 			}
 		}
 	}
-	return typ, attr, al
+	if k.typ == nil || k.attr == nil {
+		return nil
+	}
+	return k
 }
 
-func (w *World) checkCacheUpdate(r *Report, fn *ssa.Function, mu *ssa.MapUpdate, isCacheMap func(ssa.Value) bool, done map[*ssa.Function]bool) {
-	pos := w.posOf(mu.Pos())
-	kTyp, kAttr, kAlloc := keyParts(mu.Key)
-	vu, ok := mu.Value.(*ssa.UnOp)
-	var eAlloc *ssa.Alloc
-	if ok {
-		eAlloc, _ = vu.X.(*ssa.Alloc)
-	}
-	if kAlloc == nil || eAlloc == nil || kTyp == nil || kAttr == nil {
-		r.bad("R20.4", ssaName(fn), "write to the cache map", pos, "the key or the entry written to the attribute cache cannot be traced to a local (type, name) key and a local entry")
-		return
-	}
-	// classify the entry local: whole-struct stores and field stores
-	var wholeFromLookup, wholeOther int
-	var lookupKeyOK = true
-	fieldStores := map[string][]*ssa.Store{}
-	for _, ref := range *eAlloc.Referrers() {
+// spilledParam: the local is the spill slot of a parameter: one whole store (of the parameter),
+// otherwise only loads and field addresses that are only loaded from.
+func spilledParam(al *ssa.Alloc) *ssa.Parameter {
+	var p *ssa.Parameter
+	for _, ref := range *al.Referrers() {
 		switch x := ref.(type) {
 		case *ssa.Store:
-			if x.Addr != eAlloc {
-				continue
+			pp, ok := x.Val.(*ssa.Parameter)
+			if !ok || x.Addr != al || p != nil {
+				return nil
 			}
-			// entry = m[key] (Lookup / Extract of Lookup) or a composite literal (zero + field stores)
-			src := x.Val
-			if ex, ok := src.(*ssa.Extract); ok {
-				src = ex.Tuple
-			}
-			if lk, ok := src.(*ssa.Lookup); ok && isCacheMap(lk.X) {
-				wholeFromLookup++
-				if ku, ok := lk.Index.(*ssa.UnOp); !ok || ku.X != ssa.Value(kAlloc) {
-					lookupKeyOK = false
-				}
-			} else if ld, ok := src.(*ssa.UnOp); ok {
-				// copy of another local entry (cachedEntry → entry): follow one level
-				if a2, ok := ld.X.(*ssa.Alloc); ok && a2 != eAlloc {
-					wholeOther++
-					_ = a2
-				} else {
-					wholeOther++
-				}
-			} else {
-				wholeOther++
-			}
+			p = pp
+		case *ssa.UnOp, *ssa.DebugRef:
 		case *ssa.FieldAddr:
-			_, f := fieldOfAddr(x)
-			if x.Referrers() == nil {
-				continue
-			}
-			for _, r2 := range *x.Referrers() {
-				if st, ok := r2.(*ssa.Store); ok && st.Addr == x {
-					fieldStores[f] = append(fieldStores[f], st)
+			if x.Referrers() != nil {
+				for _, r2 := range *x.Referrers() {
+					switch r2.(type) {
+					case *ssa.UnOp, *ssa.DebugRef:
+					default:
+						return nil
+					}
 				}
+			}
+		default:
+			return nil
+		}
+	}
+	return p
+}
+
+// sameKey: v denotes this key as a whole.
+func (k *keyRef) sameKey(v ssa.Value) bool {
+	if k.param != nil && v == ssa.Value(k.param) {
+		return true
+	}
+	if u, ok := v.(*ssa.UnOp); ok && k.alloc != nil && u.X == ssa.Value(k.alloc) {
+		return true
+	}
+	return false
+}
+
+// isPart: v is one of the key's components.
+func (k *keyRef) isPart(v ssa.Value) bool {
+	if k.typ != nil && (sameValue(v, k.typ) || sameValue(v, k.attr)) {
+		return true
+	}
+	switch x := v.(type) {
+	case *ssa.Field:
+		return k.sameKey(x.X)
+	case *ssa.UnOp:
+		if fa, ok := x.X.(*ssa.FieldAddr); ok && k.alloc != nil && fa.X == ssa.Value(k.alloc) {
+			return true
+		}
+	}
+	return k.sameKey(v)
+}
+
+// entryPurity checks every store into a lookup field of the entry local (R20.3): the stored value
+// and the conditions deciding whether the store happens depend on the key parts alone.
+func (w *World) entryPurity(r *Report, fn *ssa.Function, eAlloc *ssa.Alloc, isPart func(ssa.Value) bool, conds func(*ssa.Store) []ssa.Value) (nLookupStores int, impure string) {
+	fieldStores := map[string][]*ssa.Store{}
+	var names []string
+	for _, ref := range *eAlloc.Referrers() {
+		fa, ok := ref.(*ssa.FieldAddr)
+		if !ok || fa.Referrers() == nil {
+			continue
+		}
+		_, f := fieldOfAddr(fa)
+		for _, r2 := range *fa.Referrers() {
+			if st, ok := r2.(*ssa.Store); ok && st.Addr == fa {
+				if len(fieldStores[f]) == 0 {
+					names = append(names, f)
+				}
+				fieldStores[f] = append(fieldStores[f], st)
 			}
 		}
 	}
-	// purity of lookup-field stores
-	impure := ""
-	nLookupStores := 0
-	for f, sts := range fieldStores {
+	sort.Strings(names)
+	for _, f := range names {
 		if statFields[f] {
 			continue
 		}
-		for _, st := range sts {
+		for _, st := range fieldStores[f] {
 			nLookupStores++
-			if why := impureSource(st.Val, kTyp, kAttr, map[ssa.Value]bool{}, 0); why != "" {
+			if why := impureSource(st.Val, isPart, map[ssa.Value]bool{}, 0); why != "" {
 				impure = fmt.Sprintf("field %s is computed from %s (%s)", f, why, w.posOf(st.Pos()))
 				r.bad("R20.3", ssaName(fn), "store entry."+f, w.posOf(st.Pos()), "cached lookup data does not depend on the key alone: "+why+" — a later lookup with the same (type, name) can be answered with data computed for a different object or at a different time")
 			} else {
 				r.ok("R20.3", ssaName(fn), "store entry."+f, w.posOf(st.Pos()), "computed from key.typ / key.attr / constants through reflect.Type methods only", true)
 			}
-		}
-	}
-	// control dependence: the branch conditions that decide which lookup-field stores execute must
-	// depend on the key alone as well (an entry filled differently for a value and for a pointer
-	// of the same struct type makes the answer depend on who asked first)
-	for f, sts := range fieldStores {
-		if statFields[f] {
-			continue
-		}
-		for _, st := range sts {
-			for _, cond := range controllingCondsBelow(st, func(v ssa.Value) bool { return isCacheHitTest(v, isCacheMap, kAlloc) }) {
-				if why := impureSource(cond, kTyp, kAttr, map[ssa.Value]bool{}, 0); why != "" {
+			// control dependence: the branch conditions that decide which lookup-field stores
+			// execute must depend on the key alone as well (an entry filled differently for a value
+			// and for a pointer of the same struct type makes the answer depend on who asked first)
+			for _, cond := range conds(st) {
+				if why := impureSource(cond, isPart, map[ssa.Value]bool{}, 0); why != "" {
 					impure = fmt.Sprintf("whether field %s is set depends on %s", f, why)
 					r.bad("R20.3", ssaName(fn), "condition controlling the store of entry."+f, w.posOf(st.Pos()), "what is cached under a (type, name) key is decided by a condition that does not depend on the key alone: "+why+" — the cached answer depends on which object was looked up first")
 				}
 			}
 		}
 	}
+	return
+}
+
+// pureEntryFunc: a helper that builds a cache entry from its parameters alone: every return is a
+// local entry whose lookup fields (and the conditions controlling their stores) depend only on
+// the parameters.  Reports the helper's stores as R20.3 obligations (once).
+func (w *World) pureEntryFunc(r *Report, g *ssa.Function) (ok bool, nStores int, impure string) {
+	if w.entryFuncMemo == nil {
+		w.entryFuncMemo = map[*ssa.Function][3]interface{}{}
+	}
+	if m, done := w.entryFuncMemo[g]; done {
+		return m[0].(bool), m[1].(int), m[2].(string)
+	}
+	defer func() { w.entryFuncMemo[g] = [3]interface{}{ok, nStores, impure} }()
+	if len(g.Blocks) == 0 {
+		return false, 0, ""
+	}
+	isPart := func(v ssa.Value) bool {
+		v = unspill(v)
+		_, isP := v.(*ssa.Parameter)
+		return isP
+	}
+	ok = true
+	seenAlloc := map[*ssa.Alloc]bool{}
+	instrsOf(g, func(in ssa.Instruction) {
+		ret, isRet := in.(*ssa.Return)
+		if !isRet || !ok {
+			return
+		}
+		res := retResults(ret)
+		if len(res) != 1 {
+			ok = false
+			return
+		}
+		u, isU := res[0].(*ssa.UnOp)
+		if !isU {
+			ok = false
+			return
+		}
+		al, isA := u.X.(*ssa.Alloc)
+		if !isA || al.Referrers() == nil {
+			ok = false
+			return
+		}
+		// the local must not be assigned as a whole from anywhere
+		for _, ref := range *al.Referrers() {
+			if st, isSt := ref.(*ssa.Store); isSt && st.Addr == al {
+				ok = false
+				return
+			}
+		}
+		if seenAlloc[al] {
+			return
+		}
+		seenAlloc[al] = true
+		n, imp := w.entryPurity(r, g, al, isPart, func(st *ssa.Store) []ssa.Value { return controllingConds(st) })
+		nStores += n
+		if imp != "" {
+			impure = imp
+		}
+	})
+	return
+}
+
+func (w *World) checkCacheUpdate(r *Report, fn *ssa.Function, mu *ssa.MapUpdate, isCacheMap func(ssa.Value) bool) {
+	pos := w.posOf(mu.Pos())
+	k := resolveKey(mu.Key)
+	if k == nil {
+		r.bad("R20.4", ssaName(fn), "write to the cache map", pos, "the key written to the attribute cache cannot be traced to a (type, name) key (local literal or parameter)")
+		return
+	}
+	hit := func(v ssa.Value) bool { return isCacheHitTest(v, isCacheMap, k) }
+	// classify what the written entry can be: through phis and locals down to lookups under a
+	// key, entry-building helpers, and locals filled field by field
+	var fromLookup, fromHelper, other int
+	lookupKeyOK := true
+	impure := ""
+	nLookupStores := 0
+	seen := map[ssa.Value]bool{}
+	seenAlloc := map[*ssa.Alloc]bool{}
+	var classify func(v ssa.Value, at ssa.Instruction)
+	classify = func(v ssa.Value, at ssa.Instruction) {
+		if seen[v] {
+			return
+		}
+		seen[v] = true
+		src := v
+		if ex, ok := src.(*ssa.Extract); ok {
+			src = ex.Tuple
+		}
+		switch x := src.(type) {
+		case *ssa.Lookup:
+			if isCacheMap(x.X) {
+				fromLookup++
+				if !k.sameKey(x.Index) {
+					lookupKeyOK = false
+				}
+				return
+			}
+		case *ssa.Phi:
+			for _, e := range x.Edges {
+				classify(e, at)
+			}
+			return
+		case *ssa.Call:
+			g := x.Call.StaticCallee()
+			if g != nil && g.Pkg != nil && g.Pkg.Pkg.Path() == twigPath {
+				fromHelper++
+				okG, n, imp := w.pureEntryFunc(r, g)
+				nLookupStores += n
+				if !okG {
+					impure = "the entry is built by " + g.Name() + ", whose result cannot be traced to a local entry filled from its parameters"
+				} else if imp != "" {
+					impure = "in " + g.Name() + ": " + imp
+				}
+				for _, a := range x.Call.Args {
+					if why := impureSource(a, k.isPart, map[ssa.Value]bool{}, 0); why != "" {
+						impure = fmt.Sprintf("%s is called with %s", g.Name(), why)
+						r.bad("R20.3", ssaName(fn), "argument of the entry builder "+g.Name(), w.posOf(x.Pos()), "cached lookup data does not depend on the key alone: the entry is built from "+why)
+					}
+				}
+				// the conditions deciding whether the helper's entry is stored
+				for _, cond := range controllingCondsBelow(x, hit) {
+					if why := impureSource(cond, k.isPart, map[ssa.Value]bool{}, 0); why != "" {
+						impure = "whether the entry is rebuilt depends on " + why
+						r.bad("R20.3", ssaName(fn), "condition controlling the entry builder "+g.Name(), w.posOf(x.Pos()), "what is cached under a (type, name) key is decided by a condition that does not depend on the key alone: "+why)
+					}
+				}
+				return
+			}
+		case *ssa.UnOp:
+			if al, ok := x.X.(*ssa.Alloc); ok && al.Referrers() != nil {
+				if seenAlloc[al] {
+					return
+				}
+				seenAlloc[al] = true
+				whole := 0
+				for _, ref := range *al.Referrers() {
+					if st, ok := ref.(*ssa.Store); ok && st.Addr == al {
+						whole++
+						classify(st.Val, st)
+					}
+				}
+				n, imp := w.entryPurity(r, fn, al, k.isPart, func(st *ssa.Store) []ssa.Value { return controllingCondsBelow(st, hit) })
+				nLookupStores += n
+				if imp != "" {
+					impure = imp
+				}
+				if whole == 0 && n == 0 {
+					other++ // a zero entry with statistics only
+				}
+				return
+			}
+		}
+		other++
+	}
+	classify(mu.Value, mu)
+	inserts := nLookupStores > 0 || fromHelper > 0
 	switch {
-	case wholeFromLookup > 0 && nLookupStores == 0 && lookupKeyOK:
+	case fromLookup > 0 && !inserts && lookupKeyOK:
 		r.ok("R20.4", ssaName(fn), "write to the cache map (statistics update)", pos, "entry read under the same key, only statistics fields assigned, stored back under the same key", true)
-	case wholeFromLookup > 0 && nLookupStores == 0 && !lookupKeyOK:
+	case fromLookup > 0 && !inserts:
 		r.bad("R20.4", ssaName(fn), "write to the cache map (statistics update)", pos, "an entry read under one key is stored under another key")
-	case nLookupStores > 0 && impure == "":
+	case inserts && impure == "" && lookupKeyOK:
 		r.ok("R20.4", ssaName(fn), "write to the cache map (insert)", pos, "entry computed from this key only", true)
-	case nLookupStores > 0:
+	case inserts && impure == "":
+		r.bad("R20.4", ssaName(fn), "write to the cache map (insert)", pos, "an entry read under one key is stored under another key")
+	case inserts:
 		r.bad("R20.4", ssaName(fn), "write to the cache map (insert)", pos, "inserted entry is not a pure function of its key: "+impure)
 	default:
 		r.bad("R20.4", ssaName(fn), "write to the cache map", pos, "the written entry is neither a statistics update of the entry read under the same key nor an entry computed from the key")
 	}
+}
 
-	// R20.5 / R20.6 concern the function as a whole: once per function
-	if done[fn] {
-		return
-	}
-	done[fn] = true
-	// R20.5: key.typ = V.Type() and field access through the same V
-	var keyVal ssa.Value
-	if c, ok := kTyp.(*ssa.Call); ok && isFunc(calleeFunc(c), "reflect", "Value", "Type") {
-		keyVal = c.Call.Args[0]
-	}
-	if keyVal == nil {
-		r.bad("R20.5", ssaName(fn), "key.typ is the dynamic type of the accessed value", w.posOf(kTyp.Pos()), "the cache key's type is not obtained by Type() from a reflect.Value")
-		return
-	}
-	nAcc := 0
-	badAcc := ""
+// keyLiteralValue: if fn builds a cache key literal whose type component is V.Type(), return V
+// (the reflect.Value whose dynamic type keys the cache) and the typ value.
+func keyLiterals(fn *ssa.Function, keyT types.Type) (lits []*keyRef) {
 	instrsOf(fn, func(in ssa.Instruction) {
-		c, ok := in.(*ssa.Call)
-		if !ok {
+		al, ok := in.(*ssa.Alloc)
+		if !ok || !types.Identical(deref(al.Type()), keyT) {
 			return
 		}
-		f := calleeFunc(c)
-		if f == nil || f.Pkg() == nil || f.Pkg().Path() != "reflect" {
+		if al.Referrers() == nil || spilledParam(al) != nil {
 			return
 		}
-		switch f.Name() {
-		case "Field", "FieldByIndex", "FieldByIndexErr", "FieldByName":
-			if !isNamed(c.Call.Args[0].Type(), "reflect", "Value") {
-				return
+		k := &keyRef{alloc: al}
+		for _, ref := range *al.Referrers() {
+			fa, ok := ref.(*ssa.FieldAddr)
+			if !ok || fa.Referrers() == nil {
+				continue
 			}
-			nAcc++
-			if !sameValue(c.Call.Args[0], keyVal) {
-				badAcc = w.posOf(in.Pos())
+			for _, r2 := range *fa.Referrers() {
+				if st, ok := r2.(*ssa.Store); ok && st.Addr == fa {
+					if isNamed(st.Val.Type(), "reflect", "Type") {
+						k.typ = st.Val
+					} else if types.Identical(st.Val.Type(), types.Typ[types.String]) {
+						k.attr = st.Val
+					}
+				}
 			}
+		}
+		if k.typ != nil {
+			lits = append(lits, k)
 		}
 	})
+	return
+}
+
+func keyValueOf(k *keyRef) ssa.Value {
+	if c, ok := unspill(k.typ).(*ssa.Call); ok && isFunc(calleeFunc(c), "reflect", "Value", "Type") {
+		return c.Call.Args[0]
+	}
+	return nil
+}
+
+// checkKeyedAccess — R20.5 and R20.6, anchored at the functions that build a key literal and at
+// every use of a cached index, wherever a refactoring has put them.
+func (w *World) checkKeyedAccess(r *Report, keyT types.Type) {
+	keyValIn := map[*ssa.Function]ssa.Value{}
+	nLitFns := 0
+	for _, fn := range w.pkgFuncs() {
+		lits := keyLiterals(fn, keyT)
+		if len(lits) == 0 {
+			continue
+		}
+		nLitFns++
+		k := lits[0]
+		keyVal := keyValueOf(k)
+		if keyVal == nil {
+			r.bad("R20.5", ssaName(fn), "key.typ is the dynamic type of the accessed value", w.posOf(k.typ.Pos()), "the cache key's type is not obtained by Type() from a reflect.Value")
+			continue
+		}
+		keyValIn[fn] = keyVal
+		// R20.5: field access through the same V
+		nAcc := 0
+		badAcc := ""
+		instrsOf(fn, func(in ssa.Instruction) {
+			c, ok := in.(*ssa.Call)
+			if !ok {
+				return
+			}
+			f := calleeFunc(c)
+			if f == nil || f.Pkg() == nil || f.Pkg().Path() != "reflect" {
+				return
+			}
+			switch f.Name() {
+			case "Field", "FieldByIndex", "FieldByIndexErr", "FieldByName":
+				if !isNamed(c.Call.Args[0].Type(), "reflect", "Value") {
+					return
+				}
+				nAcc++
+				if !sameValue(c.Call.Args[0], keyVal) {
+					badAcc = w.posOf(in.Pos())
+				}
+			}
+		})
+		if nAcc > 0 && badAcc == "" {
+			r.ok("R20.5", ssaName(fn), "key.typ is the dynamic type of the accessed value", w.posOf(k.typ.Pos()), fmt.Sprintf("%d field access(es) go through the reflect.Value whose Type() is the key", nAcc), true)
+		} else if badAcc != "" {
+			r.bad("R20.5", ssaName(fn), "key.typ is the dynamic type of the accessed value", badAcc, "a field is read from a reflect.Value other than the one whose type keys the cache (index computed for one type applied to another)")
+		}
+	}
+	r.floor("functions building a cache key from a reflect.Value", nLitFns, 1)
+
 	// R20.6: a cached method index is applied to the method set it was computed for
-	isPtrMethodFlag := func(v ssa.Value) bool {
+	isNamedField := func(v ssa.Value, name string) bool {
 		switch x := v.(type) {
 		case *ssa.UnOp:
 			if fa, ok := x.X.(*ssa.FieldAddr); ok {
 				_, f := fieldOfAddr(fa)
-				return f == "ptrMethod"
+				return f == name
 			}
 		case *ssa.Field:
 			if st, ok := x.X.Type().Underlying().(*types.Struct); ok && x.Field < st.NumFields() {
-				return st.Field(x.Field).Name() == "ptrMethod"
+				return st.Field(x.Field).Name() == name
 			}
 		}
 		return false
 	}
-	flagFlow := func(want bool) *boolFlow {
-		fl := &boolFlow{fn: fn, entry: false}
-		fl.edge = func(b *ssa.BasicBlock, i int) bool {
-			v, trueIdx, ok := ifCond(b)
-			if !ok || !isPtrMethodFlag(v) {
-				return false
+	nMeth := 0
+	for _, fn := range w.pkgFuncs() {
+		flagFlow := func(want bool) *boolFlow {
+			fl := &boolFlow{fn: fn, entry: false}
+			fl.edge = func(b *ssa.BasicBlock, i int) bool {
+				return anyEdgeFact(b, i, func(v ssa.Value, trueIdx int) bool {
+					if !isNamedField(v, "ptrMethod") {
+						return false
+					}
+					return (i == trueIdx) == want
+				})
 			}
-			return (i == trueIdx) == want
+			fl.solve()
+			return fl
 		}
-		fl.solve()
-		return fl
+		var onPtr, onVal *boolFlow
+		instrsOf(fn, func(in ssa.Instruction) {
+			c, ok := in.(*ssa.Call)
+			if !ok {
+				return
+			}
+			f := calleeFunc(c)
+			if f == nil || f.FullName() != "(reflect.Value).Method" {
+				return
+			}
+			// only calls that use the cached index
+			if !isNamedField(c.Call.Args[1], "methodIndex") {
+				return
+			}
+			nMeth++
+			if onPtr == nil {
+				onPtr, onVal = flagFlow(true), flagFlow(false)
+			}
+			recv := unspill(c.Call.Args[0])
+			construct := "cached method index applied to the method set it was computed for"
+			pos := w.posOf(in.Pos())
+			isPtrRecv := false
+			if rc, ok := recv.(*ssa.Call); ok {
+				if g := rc.Call.StaticCallee(); g != nil && (g.String() == "reflect.New" || g.String() == "reflect.ValueOf") {
+					isPtrRecv = true
+				}
+			}
+			// is the receiver the value whose type keys the cache?
+			isKeyValue := false
+			if kv := keyValIn[fn]; kv != nil && sameReflect(recv, kv) {
+				isKeyValue = true
+			} else if p, ok := recv.(*ssa.Parameter); ok && keyValIn[fn] == nil {
+				// a helper: at every call site the argument is the caller's key value
+				idx := -1
+				for i, fp := range fn.Params {
+					if fp == p {
+						idx = i
+					}
+				}
+				if node := w.callgraph().Nodes[fn]; node != nil && idx >= 0 && len(node.In) > 0 {
+					isKeyValue = true
+					for _, e := range node.In {
+						cc := e.Site.Common()
+						kv := keyValIn[e.Caller.Func]
+						if cc.IsInvoke() || cc.StaticCallee() != fn || idx >= len(cc.Args) || kv == nil || !sameReflect(unspill(cc.Args[idx]), kv) {
+							isKeyValue = false
+						}
+					}
+				}
+			}
+			switch {
+			case isKeyValue:
+				if onVal.at(in) {
+					r.ok("R20.6", ssaName(fn), construct, pos, "value receiver, under ptrMethod == false", true)
+				} else {
+					r.bad("R20.6", ssaName(fn), construct, pos, "a method index that may have been computed on the pointer type's method set is applied to the struct value")
+				}
+			case isPtrRecv:
+				if onPtr.at(in) {
+					r.ok("R20.6", ssaName(fn), construct, pos, "pointer receiver, under ptrMethod == true", true)
+				} else {
+					r.bad("R20.6", ssaName(fn), construct, pos, "a method index that may have been computed on the struct type's method set is applied to a pointer receiver (the pointer's method set also contains the pointer-receiver methods, so the same index names another method)")
+				}
+			default:
+				r.bad("R20.6", ssaName(fn), construct, pos, "the receiver of Method(cached index) cannot be tied to the kind of method set the index was computed on (value vs pointer): with mixed receiver kinds the wrong member is called")
+			}
+		})
 	}
-	var onPtr, onVal *boolFlow
-	instrsOf(fn, func(in ssa.Instruction) {
-		c, ok := in.(*ssa.Call)
-		if !ok {
-			return
-		}
-		f := calleeFunc(c)
-		if f == nil || f.FullName() != "(reflect.Value).Method" {
-			return
-		}
-		// only calls that use the cached index
-		idx := c.Call.Args[1]
-		usesCached := false
-		switch x := idx.(type) {
-		case *ssa.UnOp:
-			if fa, ok := x.X.(*ssa.FieldAddr); ok {
-				_, fn2 := fieldOfAddr(fa)
-				usesCached = fn2 == "methodIndex"
-			}
-		case *ssa.Field:
-			if st, ok := x.X.Type().Underlying().(*types.Struct); ok && x.Field < st.NumFields() {
-				usesCached = st.Field(x.Field).Name() == "methodIndex"
-			}
-		}
-		if !usesCached {
-			return
-		}
-		if onPtr == nil {
-			onPtr, onVal = flagFlow(true), flagFlow(false)
-		}
-		recv := unspill(c.Call.Args[0])
-		construct := "cached method index applied to the method set it was computed for"
-		pos := w.posOf(in.Pos())
-		isPtrRecv := false
-		if rc, ok := recv.(*ssa.Call); ok {
-			if g := rc.Call.StaticCallee(); g != nil && (g.String() == "reflect.New" || g.String() == "reflect.ValueOf") {
-				isPtrRecv = true
-			}
-		}
-		switch {
-		case sameReflect(recv, keyVal):
-			if onVal.at(in) {
-				r.ok("R20.6", ssaName(fn), construct, pos, "value receiver, under ptrMethod == false", true)
-			} else {
-				r.bad("R20.6", ssaName(fn), construct, pos, "a method index that may have been computed on the pointer type's method set is applied to the struct value")
-			}
-		case isPtrRecv:
-			if onPtr.at(in) {
-				r.ok("R20.6", ssaName(fn), construct, pos, "pointer receiver, under ptrMethod == true", true)
-			} else {
-				r.bad("R20.6", ssaName(fn), construct, pos, "a method index that may have been computed on the struct type's method set is applied to a pointer receiver (the pointer's method set also contains the pointer-receiver methods, so the same index names another method)")
-			}
-		default:
-			r.bad("R20.6", ssaName(fn), construct, pos, "the receiver of Method(cached index) cannot be tied to the kind of method set the index was computed on (value vs pointer): with mixed receiver kinds the wrong member is called")
-		}
-	})
-	if nAcc > 0 && badAcc == "" {
-		r.ok("R20.5", ssaName(fn), "key.typ is the dynamic type of the accessed value", w.posOf(kTyp.Pos()), fmt.Sprintf("%d field access(es) go through the reflect.Value whose Type() is the key", nAcc), true)
-	} else if badAcc != "" {
-		r.bad("R20.5", ssaName(fn), "key.typ is the dynamic type of the accessed value", badAcc, "a field is read from a reflect.Value other than the one whose type keys the cache (index computed for one type applied to another)")
-	}
+	r.floor("uses of a cached method index", nMeth, 1)
 }
 
 // impureSource walks the backward slice of v; returns "" if it only reaches the key parts,
 // constants and reflect.Type methods, otherwise a description of the offending source.
-func impureSource(v ssa.Value, kTyp, kAttr ssa.Value, seen map[ssa.Value]bool, depth int) string {
+func impureSource(v ssa.Value, isPart func(ssa.Value) bool, seen map[ssa.Value]bool, depth int) string {
 	if seen[v] || depth > 12 {
 		return ""
 	}
 	seen[v] = true
-	if sameValue(v, kTyp) || sameValue(v, kAttr) {
+	if isPart(v) {
 		return ""
 	}
 	switch x := v.(type) {
@@ -440,31 +695,31 @@ func impureSource(v ssa.Value, kTyp, kAttr ssa.Value, seen map[ssa.Value]bool, d
 		return "parameter " + x.Name()
 	case *ssa.Phi:
 		for _, e := range x.Edges {
-			if why := impureSource(e, kTyp, kAttr, seen, depth+1); why != "" {
+			if why := impureSource(e, isPart, seen, depth+1); why != "" {
 				return why
 			}
 		}
 		return ""
 	case *ssa.Extract:
-		return impureSource(x.Tuple, kTyp, kAttr, seen, depth+1)
+		return impureSource(x.Tuple, isPart, seen, depth+1)
 	case *ssa.Field:
-		return impureSource(x.X, kTyp, kAttr, seen, depth+1)
+		return impureSource(x.X, isPart, seen, depth+1)
 	case *ssa.FieldAddr:
-		return impureSource(x.X, kTyp, kAttr, seen, depth+1)
+		return impureSource(x.X, isPart, seen, depth+1)
 	case *ssa.IndexAddr:
-		if why := impureSource(x.X, kTyp, kAttr, seen, depth+1); why != "" {
+		if why := impureSource(x.X, isPart, seen, depth+1); why != "" {
 			return why
 		}
-		return impureSource(x.Index, kTyp, kAttr, seen, depth+1)
+		return impureSource(x.Index, isPart, seen, depth+1)
 	case *ssa.Index:
-		return impureSource(x.X, kTyp, kAttr, seen, depth+1)
+		return impureSource(x.X, isPart, seen, depth+1)
 	case *ssa.UnOp:
 		if al, ok := x.X.(*ssa.Alloc); ok {
 			// a local: every value stored into it must be pure
 			if al.Referrers() != nil {
 				for _, ref := range *al.Referrers() {
 					if st, ok := ref.(*ssa.Store); ok && st.Addr == al {
-						if why := impureSource(st.Val, kTyp, kAttr, seen, depth+1); why != "" {
+						if why := impureSource(st.Val, isPart, seen, depth+1); why != "" {
 							return why
 						}
 					}
@@ -475,20 +730,20 @@ func impureSource(v ssa.Value, kTyp, kAttr ssa.Value, seen map[ssa.Value]bool, d
 		if g := globalOf(x.X); g != nil {
 			return "package variable " + g.Name()
 		}
-		return impureSource(x.X, kTyp, kAttr, seen, depth+1)
+		return impureSource(x.X, isPart, seen, depth+1)
 	case *ssa.BinOp:
-		if why := impureSource(x.X, kTyp, kAttr, seen, depth+1); why != "" {
+		if why := impureSource(x.X, isPart, seen, depth+1); why != "" {
 			return why
 		}
-		return impureSource(x.Y, kTyp, kAttr, seen, depth+1)
+		return impureSource(x.Y, isPart, seen, depth+1)
 	case *ssa.Convert:
-		return impureSource(x.X, kTyp, kAttr, seen, depth+1)
+		return impureSource(x.X, isPart, seen, depth+1)
 	case *ssa.ChangeType:
-		return impureSource(x.X, kTyp, kAttr, seen, depth+1)
+		return impureSource(x.X, isPart, seen, depth+1)
 	case *ssa.Alloc:
 		return ""
 	case *ssa.Slice:
-		return impureSource(x.X, kTyp, kAttr, seen, depth+1)
+		return impureSource(x.X, isPart, seen, depth+1)
 	case *ssa.Call:
 		f := calleeFunc(x)
 		name := "a dynamic call"
@@ -503,7 +758,7 @@ func impureSource(v ssa.Value, kTyp, kAttr ssa.Value, seen map[ssa.Value]bool, d
 				}
 				args = append(args, x.Call.Args...)
 				for _, a := range args {
-					if why := impureSource(a, kTyp, kAttr, seen, depth+1); why != "" {
+					if why := impureSource(a, isPart, seen, depth+1); why != "" {
 						return why
 					}
 				}
@@ -574,7 +829,7 @@ func controllingConds(in ssa.Instruction) []ssa.Value {
 }
 
 // isCacheHitTest: the comma-ok result of a lookup in the cache map under this key.
-func isCacheHitTest(v ssa.Value, isCacheMap func(ssa.Value) bool, kAlloc *ssa.Alloc) bool {
+func isCacheHitTest(v ssa.Value, isCacheMap func(ssa.Value) bool, k *keyRef) bool {
 	seen := map[ssa.Value]bool{}
 	var walk func(v ssa.Value) bool
 	walk = func(v ssa.Value) bool {
@@ -585,7 +840,7 @@ func isCacheHitTest(v ssa.Value, isCacheMap func(ssa.Value) bool, kAlloc *ssa.Al
 		switch x := v.(type) {
 		case *ssa.Extract:
 			if lk, ok := x.Tuple.(*ssa.Lookup); ok && x.Index == 1 && isCacheMap(lk.X) {
-				if ku, ok := lk.Index.(*ssa.UnOp); ok && ku.X == ssa.Value(kAlloc) {
+				if k.sameKey(lk.Index) {
 					return true
 				}
 			}
